@@ -36,10 +36,18 @@ def state_key(st: dict) -> tuple:
     return tuple(st[f] for f in FIELDS)
 
 
-def apply_to_ac(ac, st: dict, aliases: bool = False) -> None:
+def apply_to_ac(ac, st: dict, aliases: bool = False, ints: bool = False) -> None:
     """Assign a state through the public setters of AirConditioner (``aliases``: eco/turbo/sleep/freeze protection through
     their deprecated alias names eco_mode/turbo_mode/sleep_mode/freeze_protection_mode, which remain part of the interface)."""
     from msmart.device import AirConditioner as AC
+    if ints:
+        # the enumerated settings are IntEnums: a plain int of the same value is an equally valid way to assign them
+        apply_to_ac(ac, st, aliases=aliases)
+        ac.operational_mode = int(st["mode"])
+        ac.fan_speed = int(st["fan"])
+        ac.swing_mode = int(st["swing"])
+        ac.aux_mode = int(st["aux"])
+        return
     if aliases:
         import warnings
         apply_to_ac(ac, st, aliases=False)
